@@ -40,7 +40,9 @@ def range_decorators(repo: Repo, run: Optional[Run] = None) -> Dict[str, Tuple[O
             continue
         if not any(isinstance(s, ast.Raise) for s in ast.walk(w)):
             continue
-        ivs, info = accepted_intervals(w)
+        from ..core.consteval import const_in
+
+        ivs, info = accepted_intervals(w, cev=lambda e: const_in(mod, e, None, w))
         raised = ""
         for s in ast.walk(w):
             if isinstance(s, ast.Raise) and s.exc is not None:
